@@ -14,8 +14,8 @@ from . import core
 from .core import TranslatorError
 
 OUTPUT = "PoolGen.v"
-ITEMS = ["available_connections", "connect_must_wait", "wait_slot_found", "release_skips_key",
-         "wait_checks_closed", "close_clears_per_host"]
+ITEMS = ["available_connections", "connect_fast_path", "connect_must_wait", "wait_slot_found", "release_skips_key",
+         "wait_checks_closed", "close_clears_per_host", "requeue_hands_on"]
 
 F = "aiohttp/connector.py"
 
@@ -275,10 +275,75 @@ def _close_clears_per_host() -> bool:
     return True
 
 
+_CMP = {ast.Lt: "(a <? {v})", ast.LtE: "(a <=? {v})", ast.Gt: "({v} <? a)", ast.GtE: "({v} <=? a)",
+        ast.Eq: "(a =? {v})", ast.NotEq: "(negb (a =? {v}))"}
+
+
+def _connect_sites():
+    """connect(): `available = self._available_connections(key)` once; `available > 0 and (conn := await
+    self._get(...)) is not None` guards the fast path; `available <= 0` decides to wait.
+    -> (fast_path_text, must_wait_text).  The older shape (no fast-path guard, the call compared directly)
+    is still recognised and yields fast_path = true."""
+    fn = core.find_function(F, "connect", cls="BaseConnector")
+    calls = [n for n in ast.walk(fn) if isinstance(n, ast.Attribute) and n.attr == "_available_connections"]
+    if len(calls) != 1:
+        raise TranslatorError(f"connect: _available_connections used {len(calls)} times")
+    assigns = [n for n in ast.walk(fn) if isinstance(n, ast.Assign) and isinstance(n.value, ast.Call)
+               and isinstance(n.value.func, ast.Attribute) and n.value.func.attr == "_available_connections"]
+    if not assigns:
+        return "true", _call_site("connect", "if")
+    if len(assigns) != 1 or len(assigns[0].targets) != 1 or not isinstance(assigns[0].targets[0], ast.Name):
+        raise TranslatorError("connect: unrecognised assignment of the capacity")
+    var = assigns[0].targets[0].id
+    stores = [n for n in ast.walk(fn) if isinstance(n, ast.Name) and n.id == var and isinstance(n.ctx, ast.Store)]
+    loads = [n for n in ast.walk(fn) if isinstance(n, ast.Name) and n.id == var and isinstance(n.ctx, ast.Load)]
+    cmps = [n for n in ast.walk(fn) if isinstance(n, ast.Compare) and len(n.ops) == 1 and isinstance(n.left, ast.Name)
+            and n.left.id == var and isinstance(n.comparators[0], ast.Constant) and isinstance(n.comparators[0].value, int)]
+    if len(stores) != 1 or len(loads) != 2 or len(cmps) != 2:
+        raise TranslatorError("connect: the capacity variable must be assigned once and compared exactly twice")
+    # the fast-path comparison is the first operand of `<cmp> and (conn := await self._get(..)) is not None`
+    fast = [n for n in ast.walk(fn) if isinstance(n, ast.If) and isinstance(n.test, ast.BoolOp) and isinstance(n.test.op, ast.And)
+            and len(n.test.values) == 2 and n.test.values[0] in cmps
+            and any(isinstance(x, ast.Attribute) and x.attr == "_get" for x in ast.walk(n.test.values[1]))]
+    if len(fast) != 1:
+        raise TranslatorError("connect: fast path is not `available <cmp> and (conn := await self._get(...)) is not None`")
+    fcmp = fast[0].test.values[0]
+    wcmp = [c for c in cmps if c is not fcmp][0]
+    waits = [n for n in ast.walk(fn) if isinstance(n, ast.If) and n.test is wcmp
+             and any(isinstance(x, ast.Attribute) and x.attr == "_wait_for_available_connection" for x in ast.walk(n))]
+    if len(waits) != 1:
+        raise TranslatorError("connect: the second capacity comparison does not guard _wait_for_available_connection")
+    txt = lambda c: _CMP[type(c.ops[0])].format(v=c.comparators[0].value)
+    return txt(fcmp), txt(wcmp)
+
+
+def _requeue_hands_on() -> bool:
+    """_wait_for_available_connection(): after `if self._available_connections(key) > 0: break` the loop body
+    ends with [`self._release_waiter()`,] `attempts += 1`."""
+    fn = core.find_function(F, "_wait_for_available_connection", cls="BaseConnector")
+    loop = [n for n in fn.body if isinstance(n, ast.While)][0]
+    body = loop.body
+    idx = [i for i, st in enumerate(body) if isinstance(st, ast.If) and len(st.body) == 1 and isinstance(st.body[0], ast.Break)]
+    if len(idx) != 1:
+        raise TranslatorError("_wait_for_available_connection: expected one `if ...: break`")
+    tail = body[idx[0] + 1:]
+    is_rw = lambda st: (isinstance(st, ast.Expr) and isinstance(st.value, ast.Call) and not st.value.args
+                        and _self_attr(st.value.func, "_release_waiter"))
+    is_inc = lambda st: isinstance(st, ast.AugAssign) and isinstance(st.target, ast.Name) and st.target.id == "attempts"
+    if len(tail) == 1 and is_inc(tail[0]):
+        return False
+    if len(tail) == 2 and is_rw(tail[0]) and is_inc(tail[1]):
+        return True
+    raise TranslatorError("_wait_for_available_connection: unrecognised statements after the `break` test")
+
+
 def generate() -> str:
     out = ["Open Scope Z_scope.\n", _gen_available()]
-    out.append("(* connect(): `if self._available_connections(key) <= 0: await self._wait_for_available_connection` *)\n"
-               f"Definition connect_must_wait (a : Z) : bool := {_call_site('connect', 'if')}.\n")
+    fast, wait = _connect_sites()
+    out.append("(* connect(): `available = self._available_connections(key)`; fast path `available > 0 and (conn := await self._get(..))` *)\n"
+               f"Definition connect_fast_path (a : Z) : bool := {fast}.\n")
+    out.append("(* connect(): `if available <= 0: await self._wait_for_available_connection` *)\n"
+               f"Definition connect_must_wait (a : Z) : bool := {wait}.\n")
     out.append("(* _wait_for_available_connection(): `if self._available_connections(key) > 0: break` *)\n"
                f"Definition wait_slot_found (a : Z) : bool := {_call_site('_wait_for_available_connection', 'if')}.\n")
     out.append("(* _release_waiter(): `if self._available_connections(key) < 1: continue` *)\n"
@@ -288,4 +353,6 @@ def generate() -> str:
                f"Definition wait_checks_closed : bool := {b(_wait_checks_closed())}.\n")
     out.append("(* _close_immediately(): `self._acquired_per_host.clear()` in the finally block *)\n"
                f"Definition close_clears_per_host : bool := {b(_close_clears_per_host())}.\n")
+    out.append("(* _wait_for_available_connection(): a woken waiter that finds no slot calls self._release_waiter() before queueing again *)\n"
+               f"Definition requeue_hands_on : bool := {b(_requeue_hands_on())}.\n")
     return "\n".join(out)
